@@ -1186,6 +1186,45 @@ func evalBlock(x *ctx, k *concrete) *verdict {
 	return v
 }
 
+// partEmptyBlock: a block's gas used equals the sum over its receipts also when there are none. In every
+// epoch an empty block whose header claims 1, 21000 or the whole gas limit must be refused, the honest
+// empty block accepted.
+func partEmptyBlock(run *ev.Run) {
+	for _, ep := range epochs {
+		gdb := aquadb.NewMemDatabase()
+		gen := &core.Genesis{Config: ep.cfg, GasLimit: genesisGasLimit, Difficulty: big.NewInt(131072), Alloc: core.GenesisAlloc{senderAddr: {Balance: big.NewInt(1)}}}
+		gblock, err := gen.Commit(gdb)
+		if err != nil {
+			ev.Broken("genesis: %v", err)
+		}
+		bl, _ := core.GenerateChain(context.Background(), ep.cfg, gblock, aquahash.NewFaker(), gdb, 1, func(i int, b *core.BlockGen) {})
+		honest := bl[0]
+		for _, gu := range []uint64{1, 21000, honest.GasLimit()} {
+			bc, err := core.NewBlockChain(context.Background(), gdb, nil, ep.cfg, aquahash.NewFaker(), vm.Config{})
+			if err != nil {
+				ev.Broken("chain: %v", err)
+			}
+			hdr := honest.Header()
+			hdr.GasUsed = gu
+			forged := types.NewBlock(hdr, nil, nil, nil)
+			_, ierr := bc.InsertChain(types.Blocks{forged})
+			run.Eval(1)
+			if ierr == nil || bc.CurrentBlock().NumberU64() != 0 {
+				run.Violate(ev.Violation{Scenario: "block", Oracle: "empty-block-gas-used", CaseID: "epoch=" + ep.name,
+					Detail: map[string]interface{}{"part": "empty-block", "epoch": ep.name, "claimed_gas_used": gu,
+						"observed": fmt.Sprintf("a block without transactions whose header claims %d gas used was accepted (error %v, head #%d)", gu, ierr, bc.CurrentBlock().NumberU64())}})
+			}
+			bc.Stop()
+		}
+		bc, _ := core.NewBlockChain(context.Background(), gdb, nil, ep.cfg, aquahash.NewFaker(), vm.Config{})
+		if _, err := bc.InsertChain(types.Blocks{honest}); err != nil {
+			ev.Broken("honest empty block rejected: %v", err)
+		}
+		bc.Stop()
+		run.Class("empty-block/epoch=" + ep.name)
+	}
+}
+
 // ---- enumeration --------------------------------------------------------------------------------
 
 func eval(x *ctx, k *concrete) *verdict {
@@ -1234,6 +1273,10 @@ func TestCheck(t *testing.T) {
 	run.Assume("consensus-invalid blocks are hand-assembled with the roots of the valid prefix and a fabricated receipt; InsertChain must reject them and leave head and head state untouched")
 
 	if d := ev.Replay(); d != nil {
+		if d.Detail["part"] == "empty-block" {
+			partEmptyBlock(run)
+			run.Finish()
+		}
 		c := caseFromDetail(d.Detail)
 		k, ok := resolve(c)
 		if !ok {
@@ -1254,6 +1297,7 @@ func TestCheck(t *testing.T) {
 			defer pprof.StopCPUProfile()
 		}
 	}
+	partEmptyBlock(run)
 	thorough := run.Thorough()
 	deadline := run.Deadline(75*time.Second, 12*time.Minute)
 	var items []item
